@@ -16,7 +16,7 @@ def ret_items(res):
 def final_problems(res):
     """Problems whose variables' solution reaches the first returned value (the intensities)."""
     x = ret_items(res)[0]
-    refs = set(x.flat().refs)
+    refs = R.sol_ids(x)
     out = []
     I = R._FakeI(res)
     for po, obj, cons in R.problems_of(res):
@@ -148,8 +148,8 @@ def pred_from_X(rep, res, entry, xi=0, pi=1):
     if len(items) <= max(xi, pi):
         return
     x, p = items[xi].flat(), items[pi].flat()
-    xr = {r for r in x.refs if r in res.heap and res.heap[r].kind == "cvxvar"}
-    pr = {r for r in p.refs if r in res.heap and res.heap[r].kind == "cvxvar"}
+    xr = R.sol_ids(x)
+    pr = R.sol_ids(p)
     if not xr:
         rep.undecided("R-TYPESTATE", "returned = predicted", entry=entry, config=res.config,
                       construct=f"return of {res.fn.name}")
